@@ -213,14 +213,29 @@ def strip_comments(src):
     return ''.join(out)
 
 
-def ensure_static(ctx):
-    """make the static theories (no-op when setup.sh has run and nothing changed); serialised by a lock"""
+def gen_coqproject():
+    """_CoqProject lists every .v under theories/ (sorted); regenerated when the set of files changes"""
+    files = []
+    for base, _, fs in os.walk(os.path.join(COQ, 'theories')):
+        files += [os.path.relpath(os.path.join(base, f), COQ) for f in fs if f.endswith('.v')]
+    text = ('-R theories Pymoto\n-arg -w -arg -notation-overridden,-deprecated-hint-without-locality,'
+            '-deprecated-instance-without-locality\n' + '\n'.join(sorted(files)) + '\n')
+    p = os.path.join(COQ, '_CoqProject')
+    if not os.path.exists(p) or open(p).read() != text or not os.path.exists(os.path.join(COQ, 'Makefile')):
+        with open(p, 'w') as f:
+            f.write(text)
+        subprocess.run(['coq_makefile', '-f', '_CoqProject', '-o', 'Makefile'], cwd=COQ, capture_output=True)
+
+
+def ensure_static(ctx, targets=None):
+    """make the static theories this property needs (no-op when setup.sh has run and nothing changed);
+    serialised by a lock.  targets: list of .vo paths relative to coq/ (default: Props/<pid>.vo)"""
+    targets = targets or [f'theories/Props/{ctx.pid}.vo']
     lock = open(os.path.join(COQ, '.build.lock'), 'w')
     fcntl.flock(lock, fcntl.LOCK_EX)
     try:
-        if not os.path.exists(os.path.join(COQ, 'Makefile')):
-            subprocess.run(['coq_makefile', '-f', '_CoqProject', '-o', 'Makefile'], cwd=COQ, capture_output=True)
-        r = subprocess.run(['timeout', '3000', 'make', '-j16'], cwd=COQ, capture_output=True, text=True)
+        gen_coqproject()
+        r = subprocess.run(['timeout', '3000', 'make', '-j4'] + targets, cwd=COQ, capture_output=True, text=True)
     finally:
         fcntl.flock(lock, fcntl.LOCK_UN)
         lock.close()
